@@ -258,6 +258,36 @@ func ubound(t *Term, depth int) uint64 {
 	return full
 }
 
+// lowPart: lo = zext_w(extract(l-1..0, t)) (or t itself when l = width of t) -> (t, l)
+func lowPart(lo *Term) (*Term, int) {
+	x := lo
+	if x.Op == "zext" {
+		x = x.Args[0]
+	}
+	if x.Op == "extract" && x.P2 == 0 {
+		return x.Args[0], x.P1 + 1
+	}
+	return nil, 0
+}
+
+func recompose(lo, hi *Term, w int) *Term {
+	t, l := lowPart(lo)
+	if t == nil || t.W() != w {
+		return nil
+	}
+	if hi.Op != "bvshl" || hi.Args[1].Op != "c" || int(hi.Args[1].C) != l {
+		return nil
+	}
+	x := hi.Args[0]
+	if x.Op == "zext" {
+		x = x.Args[0]
+	}
+	if x.Op != "extract" || x.Args[0] != t || x.P2 != l {
+		return nil
+	}
+	return ZExt(w, Extract(x.P1, 0, t))
+}
+
 // Bin builds a binary BV op with folding.
 func Bin(op string, a, b *Term) *Term {
 	w := a.W()
@@ -317,6 +347,15 @@ func Bin(op string, a, b *Term) *Term {
 	case "bvadd", "bvmul", "bvand", "bvor", "bvxor":
 		if a.Op == "c" && b.Op != "c" {
 			a, b = b, a
+		}
+	}
+	if op == "bvor" {
+		// little-endian recomposition: zext(extract(l-1..0, t)) | (zext(extract(h..l, t)) << l) = zext(extract(h..0, t))
+		if r := recompose(a, b, w); r != nil {
+			return r
+		}
+		if r := recompose(b, a, w); r != nil {
+			return r
 		}
 	}
 	switch op {
@@ -685,6 +724,23 @@ func Extract(hi, lo int, a *Term) *Term {
 	}
 	if a.Op == "ite" && (a.Args[1].Op == "c" || a.Args[2].Op == "c") {
 		return Ite(a.Args[0], Extract(hi, lo, a.Args[1]), Extract(hi, lo, a.Args[2]))
+	}
+	// extract of shl by const: the window lies in the zero fill, or shifts down
+	if a.Op == "bvshl" && a.Args[1].Op == "c" {
+		k := int(a.Args[1].C)
+		if hi < k {
+			return Const(w, 0)
+		}
+		if lo >= k {
+			return Extract(hi-k, lo-k, a.Args[0])
+		}
+	}
+	// bitwise operators commute with extract at any position (kept only when a side simplifies)
+	if lo != 0 && (a.Op == "bvand" || a.Op == "bvor" || a.Op == "bvxor") {
+		x, y := Extract(hi, lo, a.Args[0]), Extract(hi, lo, a.Args[1])
+		if x.Op != "extract" || y.Op != "extract" {
+			return Bin(a.Op, x, y)
+		}
 	}
 	// extract of lshr by const: shift the window
 	if a.Op == "bvlshr" && a.Args[1].Op == "c" {
